@@ -166,6 +166,14 @@ func c07CheckS2S(cs *drv.Case, m *strmap.Str2Str, want map[string]string, probes
 }
 
 func monC07(c *drv.Ctx) {
+	// hooks flavour (library built with -tags verif): collision chains far longer than random seeds ever produce;
+	// the keys are crafted with the map's own hash seed, read through the library's verif-tagged accessor
+	if c.Flavour == "hooks" {
+		if c07Hooks {
+			c.Stage("long-collision-chains", c.Pick(2000, 40000), false, c07LongChain)
+		}
+		return
+	}
 	// (0) never-loaded and empty maps
 	c.Stage("never-loaded", 13, true, func(cs *drv.Case) {
 		probes := []string{"", "x", "\x00", "some longer key", string(gen.Bytes(cs.R, 100))}
